@@ -23,7 +23,7 @@ func runSmoke(c *Ctx) {
 	done := make(chan int)
 	for i := 0; i < n; i++ {
 		s := w.NewSess(string(rune('a'+i)), "r1", c.Gen.Bool(), 8, nil)
-		simrt.Go("actor:"+s.Name, func() {
+		simrt.GoIn(s.Party(), "actor:"+s.Name, func() {
 			if s.Join() {
 				s.Send(&wamp.Subscribe{Request: s.NextReq(), Topic: "t.x", Options: wamp.Dict{}})
 				for k := 0; k < 3; k++ {
